@@ -228,9 +228,13 @@ func (s *Solver) Check(asserts []*Term, want []string) (string, map[string]strin
 	s.Queries++
 	res, model := "unknown", map[string]string(nil)
 	full := time.Duration(s.BudgetMs)*time.Millisecond + 2*time.Second
+	hasFP := strings.Contains(key, "fp.") || strings.Contains(key, "to_fp")
 	for i, p := range s.procs {
 		wall := full
 		if i == 0 {
+			if hasFP {
+				continue // floating point mixed with integers: z3 4.8 does not answer, cvc5 does (probed)
+			}
 			wall = 3 * time.Second
 		}
 		r, m := s.ask(p, key, want, wall)
